@@ -240,6 +240,12 @@ def run_old(case: dict, fault=None) -> dict:
     image = Faulty.from_file(path, width=case["rw"], height=case["rh"])
     if case.get("method"):
         image.set_render_method(case["method"])
+    if case.get("dynamic"):
+        from term_image.image import Size
+
+        image.size = getattr(Size, case["dynamic"])
+    if case.get("seek") and case["frames"] > 1:
+        image.seek(case["seek"])
     cap = Capture(rec, case["tty"])
 
     class FakeTime:
